@@ -21,7 +21,6 @@ set_option linter.unusedVariables false
 set_option linter.unnecessarySeqFocus false
 namespace Bridge
 variable {α : Type} [Field α] [LinearOrder α] [IsStrictOrderedRing α]
-  [HasSqrt α] [HasExp α] [HasLog α] [HasSin α] [HasCos α] [HasAsin α] [HasRpow α] [HasPi α] [HasRound α] [HasFloor α]
 
 theorem lice_W (sv Eb salt r age : α) :
     Bio.liceW sv Eb salt r (decide (age < 40.0)) = Gen.lice_W sv Eb salt r age := by
